@@ -473,6 +473,17 @@ inductive ApiSpace where
 def EpisodeCfg.space (e : EpisodeCfg) (o : Obs) : ApiSpace :=
   if e.flat then (if o.space.flattenable then .box (flatDim o.space) else .raised) else .nested o.space
 
+/-- `ProxyAgent.model_post_init` (since the F-C02-2 repair): an agent whose observations are to be flattened refuses, when it is
+built, an observation space that contains a dictionary without entries (`_has_empty_dict`) -/
+def EpisodeCfg.accepts (e : EpisodeCfg) (o : Obs) : Bool := !e.flat || o.space.flattenable
+
+/-- the agent's observation object for this episode, or `none` when the configuration is rejected (by an observation schema /
+constructor, or by the flatten guard) -/
+def EpisodeCfg.build (e : EpisodeCfg) : Option Obs :=
+  match e.raw.build e.thr with
+  | some o => if e.accepts o then some o else none
+  | none => none
+
 def EpisodeCfg.getObs (e : EpisodeCfg) (o : Obs) (v : Val) : ApiObs :=
   if e.flat then
     match flatten o.space v with
